@@ -82,5 +82,5 @@ for name in sorted(os.listdir(SD)):
     det = meta.get('detected_by')
     if isinstance(det, dict):
         for pid, r in sorted(det.items()):
-            rows.append('| %s | %s | %s%s | %s |' % (name, pid, r['verdict'], ' (historical)' if r.get('historical') else '', r['what'].replace('|', '/')[:160]))
+            rows.append('| %s | %s | %s%s | %s |' % (name, pid, r['verdict'], ' (historical)' if r.get('historical') else '', str(r.get('what') or '').replace('|', '/')[:160]))
 open(os.path.join(SD, 'RESULTS.md'), 'w').write('# Seeded changes vs checks (generated by tools/seeded_matrix.py)\n\n| change | check | verdict | reported |\n|---|---|---|---|\n' + '\n'.join(rows) + '\n')
